@@ -23,7 +23,8 @@ STR_METHODS = {
     "startswith", "endswith", "lower", "upper", "strip", "lstrip", "rstrip", "split", "join",
     "replace", "count", "rfind", "find", "encode", "isdigit", "format", "index", "rsplit",
     "isalpha", "isalnum", "isspace", "title", "partition", "rpartition", "zfill", "splitlines",
-    "isidentifier", "casefold", "removeprefix", "removesuffix",
+    "isidentifier", "casefold", "removeprefix", "removesuffix", "isprintable", "isascii", "islower", "isupper",
+    "isnumeric", "isdecimal", "translate", "expandtabs", "center", "ljust", "rjust", "swapcase", "capitalize",
 }
 LIST_MUTATORS = {"append", "extend", "pop", "popleft", "insert", "clear", "appendleft", "sort", "reverse", "remove", "rotate", "extendleft"}
 DICT_MUTATORS = {"setdefault", "pop", "update", "popitem", "clear"}
@@ -724,6 +725,14 @@ class Host(HostBase):
             el.target = PyTuple(tuple(s.target for s in subs))
         elif view == "range":
             idx = self.i.new_int(f"r@{el.id}")
+            # A2: range(*S.indices(len(V))) yields valid positions of V (for step != 0)
+            if len(base) == 3 and all(isinstance(a, Term) and a.op == "getitem" for a in base):
+                si = base[0].args[0]
+                if isinstance(si, Term) and si.op == "slice_indices" and all(b.args[0] is si for b in base):
+                    n = self.as_lin(si.args[1])
+                    if n is not None:
+                        self.ctx.assume_le0(-idx.lin)
+                        self.ctx.assume_le0(idx.lin - n + Lin.k(1))
             el.key = idx
             el.val = idx
             el.target = idx
